@@ -201,7 +201,7 @@ def vcard(fn, uid=None, extra=""):
 
 
 UIDS = ["u1", "u2", "U1", "u 3", "u\\,4", "u;5@example.com", "üid-6"]
-SUMMARIES = ["hello", "Meeting with Bob", "café", "a\\, b", "x" * 90]
+SUMMARIES = ["hello", "Meeting with Bob", "café", "a\\, b", "x" * 90, "party \U0001F389 \U00020BB7"]
 
 INVALID_ICAL = [
     b"",
@@ -242,5 +242,5 @@ def gen_ical(rng, uid=None):
 
 
 def gen_vcard(rng):
-    fn = rng.choice(["Alice", "Bob B", "Zoë", "张三", "O'Neil; Jr"])
+    fn = rng.choice(["Alice", "Bob B", "Zoë", "张三", "O'Neil; Jr", "Zoe \U0001F600 Smiley"])
     return vcard(fn, uid=rng.choice([None, "c1", "c2"]), extra=rng.choice(["", "TEL;TYPE=home:+1 555", "EMAIL:a@b.c"]))
